@@ -48,6 +48,11 @@ def generate(tier, seed):
         nd = sum(1 for d in ["%s", "%S", "%d", "%f"] for _ in range(fs.count(d)))
         n = max(0, nd + rng.choice([-1, 0, 0, 0, 1, 2]))
         reqs.append('(format "%s" %s)' % (fs, " ".join(rng.choice(args) for _ in range(n))))
+    import string as _st
+    for ch in _st.ascii_letters + _st.digits + "%$#@!*-+. ,:;<>()[]{}^&|~'?/_=":
+        for a in ["65", "55296", "57343", "1114111", "1114112", "-1", "0", "9223372036854775807", "-9223372036854775808", "2.5", "-2.7", "-0.5", '"s"', "'sym", "nil", "'(1 2)", ":k"]:
+            reqs.append('(format "<%%%s>" %s)' % (ch.replace("\\", "\\\\").replace('"', '\\"'), a))
+        reqs.append('(format "<%%%s>")' % ch.replace('"', '\\"'))
     reqs += ["(format)", "(format 1)", "(format 'a 1)", '(format "%d" "x")', '(format "%f" "x")', '(format "%d" 2.9)', '(format "%d" -2.9)', '(format "%f" 3)']
     for a in args + STRS:
         reqs += ["(prin1-to-string %s)" % a, "(print %s)" % a, "(princ %s)" % a]
